@@ -172,6 +172,9 @@ theorem pad_keeps_inside (mode : PadMode) (w : List (Nat × Nat)) (s j : List Na
     (MapOp.pad mode w).src s j = some (tab s.length fun b => j.getD b 0 - (w.getD b (0, 0)).1) :=
   pad_src_inside mode w s j hj hin
 
+example : (MapOp.pad .wrap [(2, 1)]).src [3] [4] = some [2] ∧ (MapOp.pad .wrap [(2, 1)]).src [3] [0] = some [1] ∧
+    (MapOp.pad .constant [(2, 1)]).src [3] [0] = none := by decide
+
 /-- **Resampling is geometry-free.**  The nearest source cell computed on the real cell-centre
 coordinates of any edge `[lo, lo+E]` (`E > 0`) is the one computed on the unit interval. -/
 theorem resample_geometry_free (lo E : Rat) (hE : 0 < E) (n n' j : Nat) :
@@ -244,6 +247,9 @@ theorem setter_rejects (n : List Nat) (a : NDA Rat) (h1 : a.shape ≠ n)
   · split
     · rfl
     · simp [h2]
+
+example : (NDA.const [2, 2] (1 : Rat)).shape ≠ [2, 3] ∧ (NDA.const [2, 2] (1 : Rat)).shape.getLast? ≠ some 1 := by decide
+example : (NDA.const [5, 1] (1 : Rat)).shape.getLast? = some 1 ∧ bcastOk [5, 1] ([2, 3] ++ [1]) = false := by decide
 
 /-- **`'norm'`.**  Exactly the cells whose stored value has squared length above `atol² = 1e-16`
 are valid — a cell whose components are each below the threshold is valid when their
@@ -327,6 +333,9 @@ buffer, so a write through the result changes the operand. -/
 theorem unary_plus_aliases (env : Nat → Mask) (addr : Nat → Nat) (k : Nat) (st : Store) :
     evalS env addr (.pos (.leaf k)) st = .ok (addr k, st) := rfl
 
+example : (match evalS exEnv id (.binF (.un (.leaf 0)) (.pos (.leaf 1))) [(exEnv 0).toList, (exEnv 1).toList] with
+    | .ok r => some (r.1, r.2.length)
+    | .error _ => none) = some (3, 4) := by decide
 example : (write [[true, false]] 0 1 true).getD 0 [] = [true, true] := by decide
 example : aliasOf (.un (.pos (.leaf 0))) = none ∧ aliasOf (.pos (.pos (.leaf 3))) = some 3 := by decide
 
